@@ -170,6 +170,31 @@ func VerifPolyUniformGamma1(seed [CRHBytes]uint8, nonce uint16) VerifPoly {
 	polyUniformGamma1(&p, seed, nonce)
 	return p.coeffs
 }
+// VerifPolyVecLUniformGamma1 is the vector-level mask sampler of the signing loop (nonce arithmetic L*nonce+i).
+func VerifPolyVecLUniformGamma1(seed [CRHBytes]uint8, nonce uint16) (y [L]VerifPoly) {
+	var v polyVecL
+	polyVecLUniformGamma1(&v, seed, nonce)
+	for i := 0; i < L; i++ {
+		y[i] = v.vec[i].coeffs
+	}
+	return
+}
+
+// VerifPolyVecUniformETA are the vector-level secret samplers of key generation (nonces n, n+1, ..).
+func VerifPolyVecUniformETA(seed *[CRHBytes]uint8, nonce uint16) (s1 [L]VerifPoly, s2 [K]VerifPoly) {
+	var a polyVecL
+	var b polyVecK
+	polyVecLUniformETA(&a, seed, nonce)
+	polyVecKUniformETA(&b, seed, nonce)
+	for i := 0; i < L; i++ {
+		s1[i] = a.vec[i].coeffs
+	}
+	for i := 0; i < K; i++ {
+		s2[i] = b.vec[i].coeffs
+	}
+	return
+}
+
 func VerifPolyChallenge(seed []uint8) VerifPoly {
 	var p poly
 	polyChallenge(&p, seed)
